@@ -11,7 +11,7 @@ for p in sorted(glob.glob(os.path.join(ROOT, "benign", "*", "meta.json"))):
     ch = m.get("checks", {})
     if not m.get("applies_and_suite_passes"):
         summ = re.sub(r"\s+", " ", m.get("summary") or "")[:160]
-        rows.append(f"| {name} | {KIND.get(m.get('kind'), m.get('kind'))} | {summ} | – | does not apply to the current tree (overlaps repair F15) |")
+        rows.append(f"| {name} | {KIND.get(m.get('kind'), m.get('kind'))} | {summ} | – | does not apply to the current tree (overlaps a later repair: F15 / F16) |")
         continue
     sil = [k for k, v in sorted(ch.items()) if v["verdict"] == "silent"]
     al = [f"{k} ({v['verdict']})" for k, v in sorted(ch.items()) if v["verdict"] != "silent"]
